@@ -132,3 +132,12 @@ package verifspec
 //@   loop 1 decreases len(str) - i
 //@   ensures len(result) == len(str) && freshobj(result)
 //@   ensures forall(k, 0, len(str), result[k] == str[k])
+
+// []T -> *[N]T / [N]T ($sliceToGoArray): a slice shorter than the array makes the conversion panic.  One-directional; the
+// construction of the result (views, the unsupported sub-slice case) is abstracted.
+//@ js prelude.js $sliceToGoArray
+//@ property C08
+//@   param slice: slice, arrayPtrType: desc
+//@   requires arrayPtrType.elem.len >= 0
+//@   abstract_rest
+//@   throws_when slice.$length < arrayPtrType.elem.len
